@@ -61,7 +61,8 @@ def main():
             if os.path.exists(mp) and os.path.exists(os.path.join(d, "patch.diff")):
                 meta = json.load(open(mp))
                 variants.append(("seeded/" + os.path.basename(d.rstrip("/")), os.path.join(d, "patch.diff"), 1,
-                                 {"fires": meta.get("caught_by_expected", [meta["property"]]) if meta.get("caught", True) else [], "kind": "break" if meta.get("caught", True) else "missed"}))
+                                 {"fires": meta.get("caught_by_expected", [meta["property"]]) if meta.get("caught", True) else [], "kind": "break" if meta.get("caught", True) else "missed",
+                                  "may_break": meta.get("checks_left_broken", [])}))
         # behaviour-preserving refactorings written by independent authors: every check must stay silent
         for d in sorted(glob.glob(os.path.join(VERIF, "refactors/*/"))):
             if os.path.exists(os.path.join(d, "patch.diff")):
@@ -93,7 +94,7 @@ def main():
             elif e["kind"] == "missed":
                 ok = True
             else:
-                ok = set(e["fires"]) <= set(fired) and not broken
+                ok = set(e["fires"]) <= set(fired) and set(broken) <= set(e.get("may_break", []))
             extra = sorted(set(fired) - set(e["fires"]))
             print("%s %-40s fired=%s%s%s  (%.0fs)" % ("ok   " if ok else "FAIL ", name, fired, " missing=%s" % sorted(set(e["fires"]) - set(fired)) if not ok and e["kind"] == "break" else "",
                                                       " also=%s" % extra if extra and e["kind"] == "break" else "", r["wall_s"]) + (" BROKEN=%s" % broken if broken else ""))
